@@ -150,3 +150,35 @@ func asFloat(v any) (f float64, ok bool) {
 	}
 	return
 }
+
+// cmpNum compares two numbers and returns -1, 0 or 1 for a less than, equal to
+// or greater than b and 2 if they are not ordered (a NaN). Two integers are compared as integers so that values
+// beyond 2^53 keep their order, anything else as floats. A value that is not a
+// number gives ok false.
+func cmpNum(a, b any) (c int, ok bool) {
+	if ia, aok := asInt(a); aok {
+		if ib, bok := asInt(b); bok {
+			switch {
+			case ia < ib:
+				return -1, true
+			case ia > ib:
+				return 1, true
+			}
+			return 0, true
+		}
+	}
+	fa, aok := asFloat(a)
+	fb, bok := asFloat(b)
+	if !aok || !bok {
+		return 0, false
+	}
+	switch {
+	case fa < fb:
+		return -1, true
+	case fa > fb:
+		return 1, true
+	case fa == fb:
+		return 0, true
+	}
+	return 2, true // not ordered, a NaN
+}
